@@ -67,12 +67,36 @@ def run_pipeflow(net, mode, use_numba, capture=None):
         return orig(node_pit)
     mod.check_infeed_number = wrapped
     try:
-        pp.pipeflow(net, mode=mode, use_numba=use_numba, **TIGHT)
+        if mode == "heat":
+            # temperature calculation on a handed-in hydraulic solution: hydraulics first, sol_vec from the pit
+            import pandapipes.idx_branch as ib
+            import pandapipes.idx_node as inode
+            pp.pipeflow(net, mode="hydraulics", use_numba=use_numba, **TIGHT)
+            sol = np.concatenate([net["_pit"]["node"][:, inode.PINIT].copy(), net["_pit"]["branch"][:, ib.MDOTINIT].copy()])
+            pp.pipeflow(net, sol_vec=sol, mode="heat", use_numba=use_numba, **TIGHT)
+        else:
+            pp.pipeflow(net, mode=mode, use_numba=use_numba, **TIGHT)
         return "ok"
     except Exception as e:  # noqa: BLE001
+        LAST_EXC[0] = "%s: %s" % (type(e).__name__, str(e)[:200])
         return type(e).__name__
     finally:
         mod.check_infeed_number = orig
+
+
+LAST_EXC = [""]
+EXPECTED_FAILURES = ("PipeflowNotConverged",)
+
+
+def report_unexpected(ctx, spec, mode, numba, r, prop_clause="no_result"):
+    """a well-posed generated net on which pipeflow dies with anything but PipeflowNotConverged has no thermal
+    result at all: reported as a concrete failing input (never happens on the reference tree)"""
+    if r == "ok" or r in EXPECTED_FAILURES:
+        return False
+    ctx.violation({"clause": prop_clause, "exception": r, "calc_mode": mode},
+                  "pipeflow(mode=%s) on a well-posed generated heating net raises %s - no temperatures / duties are returned"
+                  % (mode, LAST_EXC[0]), {"spec": spec, "mode": mode, "use_numba": numba, "options": TIGHT})
+    return True
 
 
 # ----------------------------------------------------------------------------------------------- correspondence
@@ -417,6 +441,7 @@ def explore(ctx, n_nets, n_numba, with_corr=True):
         ctx.count("numba_" + str(numba))
         if cap and with_corr and len(captured) < (40 if ctx.quick else 200) and len(cap[0][0]) <= 40:
             captured.append((spec, net, cap[0][0], cap[0][1], numba))
+        report_unexpected(ctx, spec, mode, numba, r)
         if r != "ok":
             continue
         conv += 1
@@ -424,6 +449,29 @@ def explore(ctx, n_nets, n_numba, with_corr=True):
         ctx.case({"kind": "monitor", "net": spec.get("kind"), "mode": mode, "numba": numba,
                   "ops": len(spec["ops"]), "h": json.dumps(spec, sort_keys=True, default=str)}, nontrivial=nt)
         monitor_net(ctx, spec, net, mode, numba)
+        # mode "heat" on the stored hydraulic solution must give the same temperatures (reverse flow included)
+        if i % 2 == 0 and mode == "sequential":
+            ref = net.res_junction.t_k.values.copy()
+            net2 = hgen.build(spec)
+            r2 = run_pipeflow(net2, "heat", numba)
+            ctx.count("pipeflow_heat_" + r2)
+            report_unexpected(ctx, spec, "heat", numba, r2)
+            if r2 == "ok":
+                ctx.case({"kind": "monitor", "net": spec.get("kind"), "mode": "heat", "numba": numba,
+                          "h": json.dumps(spec, sort_keys=True, default=str)}, nontrivial=nt)
+                monitor_net(ctx, spec, net2, "heat", numba)
+                t2 = net2.res_junction.t_k.values
+                d = np.nanmax(np.abs(t2 - ref)) if len(ref) else 0.0
+                if not d <= 1e-6 or np.any(np.isnan(t2) != np.isnan(ref)):
+                    j = int(np.nanargmax(np.abs(t2 - ref)))
+                    ctx.violation({"clause": "direction_switch", "calc_mode": "heat"},
+                                  "mode='heat' on the stored hydraulic solution gives junction %s %.6f K, sequential mode %.6f K"
+                                  % (net.junction.index[j], t2[j], ref[j]),
+                                  {"spec": spec, "mode": "heat", "use_numba": numba, "options": TIGHT})
+            elif r2 in EXPECTED_FAILURES:
+                ctx.violation({"clause": "direction_switch", "calc_mode": "heat", "outcome": "not-converged"},
+                              "mode='heat' on the stored hydraulic solution does not converge although sequential mode "
+                              "converges on the same net", {"spec": spec, "mode": "heat", "use_numba": numba, "options": TIGHT})
     ctx.count("converged_nets", conv)
     return captured
 
